@@ -82,6 +82,104 @@ CLAIMED = {
          'inet_ntop replaced by a recording stub; datagram length bounded'),
 }
 NA = {}
+# ---- descriptions revised after the checks were deepened (override the entries above)
+CLAIMED.update({'C03': ("Bounded symbolic check of manifest-derived lifetimes: manifest_ttl for every expiry / wall-clock reading / sanitised window never exceeds the manifest's remaining life, lies in [min, max] "
+         'and rejects only expired / too-short manifests; through the lifted Node::ingest_manifest, Node::handle_announce and Node::receive_chunk (partial Node, real KademliaTable / ChunkStore) '
+         'cached key shares, provider contacts learned from an ANNOUNCE (any announced TTL, 0 included) and replica copies / self-announcements expire no later than the manifest, and nothing changes '
+         'on rejection.',
+         'pending fetches dropped at manifest expiry are decided in C24, cached manifests / swarm plans in C05; decode_manifest is supplied by the harness; bounds as listed in the evidence'),
+ 'C04': ('Bounded symbolic check of the real ChunkStore with persistence on, including the real persist_chunk_to_disk, over a model disk (std::ofstream and filesystem::status are source-level / '
+         'redirected models whose open, short write and flush may fail): over every sequence of 3 (quick) / 4 (thorough) put / lookup / sweep operations a chunk file exists only for a stored, not '
+         'yet cleaned-up chunk, holds exactly the stored bytes (no partial file survives a failed store) and is gone after the cleanup that follows the expiry; the restart case is the listed open '
+         'finding.',
+         'secure_wipe_file / ensure_storage_directory themselves (overwrite passes, remove, directory creation), fsync and a crash of the process mid-write are not encoded; these jobs are not '
+         'replayed natively (the model disk exists only in the engine)'),
+ 'C05': ('Bounded symbolic check of the cleanup branch of Node::tick with audit_ttl and the cleanup notifications (lifted onto a partial Node with the real ChunkStore and KademliaTable): after a '
+         "cleanup tick at or after a chunk's deadline none of record, self-announcement, locator, key shares, cached manifest, swarm plan remains, the audit is healthy and the expiry is reported "
+         'exactly once (also when a lookup noticed it first); provider contacts of other peers (two providers of one chunk and one of another, symbolic lifetimes) are swept over 2 (3) ticks and live '
+         'ones are kept.',
+         'one local chunk with the state Node::store_chunk leaves behind (built by the harness), optional lookup, 1 (quick) / 2 (thorough) ticks; the non-cleanup parts of tick (uploads, fetches, key '
+         'rotation) are cut'),
+ 'C10': ('Bounded symbolic check: GF(2^8) kernels vs a bitwise reference for all operand pairs; split/combine round trip with symbolic secret byte and coefficients over every ordered t-subset for '
+         'the listed (t, n); combine equals Lagrange interpolation at 0 for enumerated index tuples; refusals (too few shares, repeated / zero indices); termination for n = 255; secrecy as a '
+         'necessary condition: for threshold 2 and 6 (thorough also 3, 4, 8) some value of the randomness makes t-1 shares interpolate to something other than the secret (an existential clause '
+         'decided by complete exploration, confirmed by native sampling).',
+         'random_device stubbed; one secret byte position symbolic at a time; (t,n) bounded (t<=2 quick, t<=3 thorough for the round trip, n=255 with t=1); the full information-theoretic secrecy '
+         'statement (a forall-exists query per share set) is outside the bounds'),
+ 'C11': ('Bounded symbolic check of the replica import Node::receive_chunk (lifted onto a partial Node with the real ChunkStore, KademliaTable, Shamir, CryptoManager, ChaCha20): a replica is stored, '
+         'announced, cached or returned only if its decryption hashes to the manifest content hash (the optional attestation digest is symbolic too), the stored bytes are the imported ciphertext and '
+         'its lifetime does not exceed the manifest; round trip: a plaintext encrypted with encrypt_with_key under the chunk id is recovered by receive_chunk, including chunk ids whose initial block '
+         'counter wraps.',
+         'store_chunk / fetch_chunk themselves and the CLI decryption (C30) are not encoded; SHA-256 uninterpreted (real natively); 0..3 shards, plaintext / ciphertext of 0..3 bytes'),
+ 'C14': ('Bounded symbolic check of the framing of the real network/SessionManager.cpp with the sockets modelled: send_encrypted emits nonce || big-endian length || ChaCha20 ciphertext (decrypting '
+         'to the payload) and nothing above 1 MiB; receive_loop hands every frame to the handler once, byte for byte and in order; an announced length above 1 MiB ends the session without reading '
+         'the body; on an inbound session (read_handshake_payload with its timeout, then receive_loop) every frame is delivered whatever the pauses between sends (SO_RCVTIMEO modelled: no handshake '
+         'timeout may stay armed).',
+         'reader threads, accept loop, handshake message exchange and TCP delivery itself are not encoded; payloads 0..3 B (quick) / up to 70 B (thorough), 1-3 frames; logging is a sink'),
+ 'C19': ('Bounded symbolic check: leading-zero counters of StoreProof.cpp, TokenChallenge.cpp and Node.cpp equal a bit-level reference (quick: first non-zero byte within 5 bytes; thorough: every '
+         'digest); store_pow_valid accepts exactly the nonces whose digest meets the difficulty and hashes exactly the documented encoding; the handshake gate of Node::perform_handshake uses the '
+         'verdict for the offered (key, nonce) in every handshake of a history (stand-in predicate, shared with C20).',
+         'Sha256 is a recording stub returning a solver-chosen digest (hash itself is C08); announce digests in Node.cpp, main.cpp copies and the PoW solver loops are outside the claim'),
+ 'C20': ('Bounded symbolic check of Node::perform_handshake (lifted from the current core/Node.cpp onto a partial Node with the real KeyManager, KeyExchange, ReputationManager): over every history '
+         'of 3 (quick) / 4 (thorough) inbound handshakes of one claimed peer (symbolic keys, nonces, gaps inside and outside the cooldown) acceptance implies a valid key, a rejection registers '
+         'nothing, keeps existing keys and lowers the reputation; with a stand-in PoW predicate every handshake of such a history is accepted exactly when key and predicate hold; with the real '
+         'predicate and symbolic difficulty one handshake is accepted exactly when the key is valid and the PoW holds.',
+         'handle_transport_handshake (negotiation, ack encoding) not encoded; DH secret and SHA/HMAC uninterpreted; SessionManager::register_peer_key is a recording stub'),
+ 'C21': ('Bounded symbolic check of Node::handle_announce with verify_announce_pow and the throttle / lock-out kernels (lifted onto a partial Node with the real KademliaTable and ReputationManager): '
+         'for one ANNOUNCE with symbolic lock-out entry, earlier announce, announcer, manifest presence / decodability / chunk / shares / threshold / remaining life, assigned shard, PoW difficulty, '
+         'message version and PoW verdict, node state changes only if the announce is admissible, an admissible one is taken up and the cached manifest is the one carried; over every timed sequence '
+         'of 4 (quick) / 6 (thorough) announces of two peers an announce gets through exactly when it respects the minimum interval and the burst window; three rejections within 120 s lock a peer '
+         'out for exactly 180 s; lock-out operations do not change throttle verdicts.',
+         'decode_manifest (C17/C18) and the PoW predicate (C19) are symbolic verdicts; update_swarm_plan, note_peer_seed, schedule_assigned_fetch, broadcast_manifest are recorders; whole seconds'),
+ 'C22': ('Bounded symbolic check of SwarmCoordinator::compute_plan over the real KademliaTable: every shard is assigned to exactly one provider, providers are distinct live peers other than the node '
+         '(leases in their last half second included), each gets at least one shard, counts differ by at most one and the provider count follows the stated formula for every configuration and '
+         'threshold.',
+         'table contents per job (0..4 live contacts, optional expired contact and local id), 1..6 shards; peer-load snapshot empty and score jitter fixed (the ranking score is floating point, so '
+         'leases are enumerated concrete values)'),
+ 'C24': ('Bounded symbolic check of fetch scheduling (lifted from the current core/Node.cpp onto a partial Node): retry delay = initial back-off doubled per attempt up to the maximum with the '
+         'documented fallbacks, nothing scheduled once the limit is exhausted; per-peer in-flight counters equal the outstanding requests and stay within the limit across announcements, '
+         're-announcements, dispatches and arrivals; with the real process_pending_fetches over announcement / tick / arrival sequences (symbolic peers, chunks, send outcomes, clock, retry settings, '
+         'manifest expiry) a pending fetch is dropped once held locally or once its manifest has expired and no more requests than the attempt limit are sent per announced fetch.',
+         'transport sends are an arbitrary boolean outcome; role ledger and provider refresh are cut; sequences of 3 (quick) / up to 4 (thorough) events'),
+ 'C27': ('Bounded symbolic check of the control token gate, twice: the handlers handle_stop / handle_store / handle_fetch lifted into a class with a recording node, and the whole '
+         'daemon/ControlServer.cpp (recv_line, parse_request, handle_client dispatch, handlers) driven with request bytes on a modelled socket over a partial Node: with a token configured a request '
+         'without the exact token (absent, same length, shorter, longer, longer by 256 / 512 bytes; any letter case of the command word; TOKEN header before or after COMMAND) is answered '
+         '*_UNAUTHENTICATED and stores, registers, fetches, writes and stops nothing; the exact token is accepted.',
+         'accept thread and real sockets are not encoded; configured token "tok"; std::filesystem::absolute / parent_path are stubs; logging is cut'),
+ 'C28': ('Bounded symbolic check of STORE admission in the lifted handle_store (size cap, TTL text with symbolic characters against a symbolic window, proof-of-work gate) and of the rate limits: 7 '
+         'STOREs / 13 streamed FETCHes from one address at symbolic times with no, varying or constant TOKEN headers are never accepted beyond 6 / 12 per 30 s window.',
+         '"refused before the body is read" (parse_request / recv) is not encoded; store_pow_valid is a stub with an arbitrary verdict (C19); the stream cap is 64 B in the harness'),
+ 'C29': ("Bounded symbolic check of the control response path: send_response and the client's recv_line / recv_exact / parse_response (lifted, back to back) deliver exactly the fields, status and "
+         'payload for symbolic values with line breaks and backslashes and for a 230-line chunk list beyond the old 16 KiB line limit; LIST through the whole daemon/ControlServer.cpp (handle_client, '
+         'handle_list, send_response) and the client parser over a store of 0..3 chunks with symbolic remaining lifetimes lists every live chunk (also one in its last second) and COUNT equals the '
+         'lines.',
+         'the other handlers that build fields and the CLI printing (print_list_response) are not encoded, nor TCP segmentation; values up to 3 (4) characters, payload up to 2 bytes'),
+ 'C30': ('Bounded symbolic check of the two places where eph fetch turns delivered bytes into a file, lifted from the current src/main.cpp: decrypt_chunk_with_manifest (transport / relay paths; real '
+         'Shamir, CryptoManager, ChaCha20) returns plaintext only if it hashes to the manifest content hash; finalize_fetch (control hint, control:// fallback, local daemon paths) writes the file '
+         "only if the delivered bytes hash to it - with the manifest's chunk id and content hash symbolic relative to the digest of the delivered bytes and any extra response header (symbolic "
+         '9-letter key, 8-character value).',
+         'the fetch command around them (discovery, sockets, which path is tried when) is not encoded; SHA-256 uninterpreted (real natively); 1-2 shards, 0..3 delivered bytes'),
+ 'C32': ('Bounded symbolic check of configuration layering lifted from the current src/main.cpp (namespace config: merge_objects, resolve_profile, collect_environment_overrides, get_*_any; '
+         'apply_profile_to_options; load_configuration): with presence and value of every layer symbolic, the effective setting equals the value of the highest-precedence layer that sets it (flag, '
+         'environment override, selected profile, parent, grandparent, unset), also for a boolean with a --x / --no-x flag pair; cyclic profiles (self, 2-cycle, a tail leading into a cycle) and '
+         'missing profiles raise ConfigError.',
+         'representative options control.port (five layers) and storage.persistent; extends chains 0..2; the YAML/JSON text parsers, file reading (load_document is replaced by the harness-built '
+         'document) and argv parsing are not encoded; std::map / std::set are the unbalanced-tree models'),
+ 'C34': ('Symbolic check of the address classifiers gating every auto-advertised endpoint (all 2^32 IPv4 addresses as octets, dotted-quad / ::ffff:-mapped texts with symbolic digits, against the '
+         'IANA special-purpose blocks) and of the publication step: Node::refresh_advertised_endpoints (lifted onto a partial Node) over the real candidate assembly publishes nothing automatic with '
+         'auto-advertise off, withholds conflicting candidates in warn mode, carries no stale automatic endpoint over, publishes nothing non-routable and keeps pinned endpoints.',
+         'the NAT traversal itself and manifest hint generation are not encoded; discovery outcomes are enumerated (transport bound or not, NAT status, STUN result, external address kind / port, '
+         'control host); text shapes bounded as listed in the evidence'),
+ 'C35': ('Bounded symbolic check that remote and control-plane input does not take the process down: Node::receive_chunk (any share set, threshold, expiry, ciphertext) and Node::handle_announce (an '
+         'admissible ANNOUNCE whose shard indices and total_shares header are unrelated) let no exception escape and perform no invalid memory access; the whole daemon/ControlServer.cpp answers '
+         'control requests of 0..6 (9) arbitrary bytes, any command with any one header of 0..1 (3) symbolic characters and FETCH with any OUT value without an escaping exception; the wire decoders '
+         'are decided in C16, C18, C33, C38.',
+         'session threads, the transport accept loop and liveness (a client that connects and sends nothing) are not encoded'),
+ 'C39': ('Bounded symbolic check of two KeyManagers (the two ends of a session) with symbolic rotation interval, registration and tick times: while no rotation is DUE (interval elapsed since the '
+         'latest handshake or re-handshake on the rotating end) the two ends hold the same key for every tick timing, including tick timestamps older than the registration; rotations that were due '
+         'are the listed open finding (each end mixes its own clock reading into the new key).',
+         'KeyManager level only (Node::rotate_session_keys forwards the key, read not encoded); 1-2 ticks per end; HMAC uninterpreted')})
+
 def main():
     props = [json.loads(l) for l in open(os.path.join(ROOT, 'properties.jsonl'))]
     reasons = json.load(open(os.path.join(ROOT, 'not_applicable.json')))
